@@ -210,7 +210,7 @@ Allowed(c) == CASE c = "MustReject" -> {"rejected"} [] c = "MustAcceptSame" -> {
 \* resolved non-deterministically (the tar checksum, a changed name or size rejects; a don't-care
 \* field is ignored).  SHA-256 is assumed collision free: a hash matches iff the hashed bytes are
 \* the original bytes.  tracks = TRUE: the reader also requires that every expected member was SEEN
-\* (the property-conforming reader); tracks = FALSE: as archive.go does today (hashes of the two
+\* (the property-conforming reader); tracks = FALSE: as archive.go did before the fix (hashes of the two
 \* expected names are pre-registered, so a missing empty state.bin hashes like a present one).
 Rej == [res |-> "rejected", state |-> <<>>, meta |-> "none"]
 RS0 == [metaIn |-> <<>>, snapOut |-> <<>>, sha |-> <<>>]
